@@ -345,7 +345,9 @@ def run(cx: Cx):
     gcomp = cx.fn(CORE + 'Agent.get_component')
     check_lookup(cx, gcomp.qualname, Attr(Sym(gcomp.params[0]), 'components'), Sym(gcomp.params[1]), 'ComponentNotFoundError')
     gi = cx.fn(CORE + 'Agent.__getitem__')
-    for p in cx.walker.paths(gi, WalkOptions(unroll=0)):
+    for p in cx.walker.paths(gi, WalkOptions(unroll=0, callee_raises=False)):
+        if p.end != 'return':
+            continue
         v = strip_versions(p.last.data.get('value')) if p.end == 'return' else None
         sym_self, item = Sym(gi.params[0]), Sym(gi.params[1])
         oks = (App('call:' + gcomp.qualname, (sym_self, item)), Sub(Attr(sym_self, 'components'), item), App('.get', (Attr(sym_self, 'components'), item)),
